@@ -16,14 +16,29 @@ import (
 	"github.com/els0r/telemetry/logging"
 )
 
-var logOnce sync.Once
+var (
+	logMu  sync.Mutex
+	logSet bool
+)
 
 // QuietLogs routes goProbe's logging to io.Discard (or to w if non-nil).
 func QuietLogs(w io.Writer) {
+	logMu.Lock()
+	defer logMu.Unlock()
 	if w == nil {
 		w = io.Discard
 	}
 	_, _ = logging.Init(logging.LevelError, logging.EncodingLogfmt, logging.WithOutput(w), logging.WithErrorOutput(w))
+	logSet = true
+}
+
+func ensureQuiet() {
+	logMu.Lock()
+	set := logSet
+	logMu.Unlock()
+	if !set {
+		QuietLogs(nil)
+	}
 }
 
 // Args builds query arguments with explicit epoch bounds.
@@ -41,7 +56,7 @@ func Args(queryType, ifaces, cond string, first, last int64) *query.Args {
 // Run executes a query through the real engine. Panics on the calling goroutine are recovered and
 // returned (panicMsg != ""); panics in worker goroutines kill the process (child isolation).
 func Run(dbPath string, a *query.Args, opts ...engine.RunnerOption) (res *results.Result, err error, panicMsg string) {
-	logOnce.Do(func() { QuietLogs(nil) })
+	ensureQuiet()
 	defer func() {
 		if r := recover(); r != nil {
 			panicMsg = fmt.Sprintf("%v\n%s", r, debug.Stack())
